@@ -10,6 +10,9 @@ import CruxVerif.Props.C13
 #print axioms Props.C13.finished_commands_leave_the_executor_bridge_flat
 #print axioms Props.C13.stored_tasks_are_charged_to_outstanding_requests
 #print axioms Props.C13.charges_are_distinct
+#print axioms Props.C13.finished_task_future_dropped
+#print axioms Props.C13.dropped_task_counted_once
+#print axioms Props.C13.aborted_command_drops_task_futures
 #print axioms Props.C13.cleared_timer_set_bounded_by_outstanding_timers
 #print axioms Props.C13.finished_timer_is_forgotten
 #print axioms Props.C13.cleared_timer_set_bounded_mixed
